@@ -110,7 +110,10 @@ def run_history(tr: str, script: list, cls: str, text: str, argc: int, worlds: d
     server_died = []
     if not http:
         if not hung:
-            w.close()              # EOF ends the serve loop; the join makes every record visible
+            # EOF ends the serve loop; the join makes every record visible.  A serve loop that does not end is
+            # reported as a hang (drift), never judged on a possibly incomplete record list.
+            if not w.close(join_timeout=20.0):
+                hung = True
             server_died = list(w.died)
     recs = _CAP.take()
     return {"events": events, "errs": errs, "records": recs, "hung": hung, "server_died": server_died}
